@@ -9,7 +9,12 @@
 // ---------------------------------------------------------------------------------------------
 #[verifier::external_body] pub struct SyntaxNode { _p: u8 }
 #[verifier::external_body] pub struct SyntaxToken { _p: u8 }
-pub enum Kid { E(Expr), S(Stmt), O(nat) }
+pub enum Kid { E(Expr), S(Stmt), L(ParamList), O(nat) }
+impl SyntaxToken {
+    pub uninterp spec fn sp_kind(&self) -> SyntaxKind;
+    /// rowan: the kind of the token
+    #[verifier::external_body] pub fn kind(&self) -> (r: SyntaxKind) ensures r == self.sp_kind() { unimplemented!() }
+}
 impl SyntaxNode {
     /// the child nodes, in source order
     pub uninterp spec fn kids(&self) -> Seq<Kid>;
@@ -52,6 +57,12 @@ impl AstNode for Stmt {
 }
 impl AstNode for BlockExpr {
     open spec fn of_kid(k: Kid) -> Option<BlockExpr> { match k { Kid::E(Expr::BlockExpr(b)) => Some(b), _ => None } }
+    open spec fn sp_syntax(&self) -> SyntaxNode { self.syntax }
+    fn syntax(&self) -> (r: &SyntaxNode) { &self.syntax }
+    #[verifier::external_body] fn cast(syntax: SyntaxNode) -> (r: Option<Self>) { unimplemented!() }
+}
+impl AstNode for ParamList {
+    open spec fn of_kid(k: Kid) -> Option<ParamList> { match k { Kid::L(l) => Some(l), _ => None } }
     open spec fn sp_syntax(&self) -> SyntaxNode { self.syntax }
     fn syntax(&self) -> (r: &SyntaxNode) { &self.syntax }
     #[verifier::external_body] fn cast(syntax: SyntaxNode) -> (r: Option<Self>) { unimplemented!() }
@@ -143,3 +154,9 @@ pub open spec fn range_shape(ks: Seq<Kid>) -> bool { (ks.len() == 2 || ks.len() 
 pub open spec fn assign_shape(ks: Seq<Kid>) -> bool {
     ks.len() == 2 && ks[1] is E && ((ks[0] is E && ks[0]->E_0 is Identifier) || ks[0] is O)
 }
+
+/// assumed-parser (items.rs gate_definition): a GATE has, as child nodes, its name, an optional
+/// list of angle parameters, the list of qubit parameters (always present) and the body
+pub open spec fn gate_shape(ks: Seq<Kid>) -> bool { typed::<ParamList>(ks).len() == 1 || typed::<ParamList>(ks).len() == 2 }
+/// assumed-parser: a CALL_EXPR / GATE_CALL_EXPR starts with the callee expression; an INDEX_EXPR has the indexed expression first
+pub open spec fn callee_first(ks: Seq<Kid>) -> bool { ks.len() >= 1 && ks[0] is E }
